@@ -48,7 +48,9 @@ CHECKS = {
  'C09': dict(
    technique='Coq proof (field identities: 4-point Lagrange weights exact for cubics for all spacings; FMG rows: coarse identity, constants, fall-back location, cubic exactness in r) + complete per-grid matrix correspondence of applyFMGInterpolation',
    text='Part (a), interpolation: proved for all positive spacings and all nr = 2M+1 (M >= 2). The real FMG matrix is extracted on random '
-        'pairs and compared with the model rows. Part (b), nested-iteration start-up: see evidence (covered by the cycle model when built).',
+        'pairs and compared with the model rows. Part (b): the FMG start-up is the nested-iteration op sequence (exact op-trace correspondence of '
+        'solve()), it reads only right-hand sides (theorem for every number of levels / cycle type / iteration count), and with two levels and '
+        'no cycles it is copy, direct solve, FMG interpolation. Finding F8 repaired by a fix: commit.',
    note='Trusted: Coq kernel; R axioms; hand model InterpDefs.v tied by K-matrix; extraction. Cubic exactness in theta is local (periodic unwrapping) and evaluated through the same lag4 lemma.',
    design='5/C09'),
  'C03': dict(
@@ -96,6 +98,34 @@ CHECKS = {
         'rationals (certified block updates) and their outputs at (even, even) nodes are compared bitwise with the input.',
    note='Trusted: Coq kernel, hand model tied by K-affine, extraction. Block uniqueness is a premise of the fixed-point theorem.',
    design='5/C07'),
+ 'C10': dict(
+   technique='Coq proof by induction on the number of levels over the op sequences of the six cycle functions (written-before-read, write sets) and over abstract linear operators (fixed point, two-level formula) + exact op-trace correspondence through guarded hooks',
+   text='For every number of levels, smoothing counts and cycle type: a cycle started from the exact solution returns it; with smoothing off two levels '
+        'give u + P A_c^{-1} R (f - A u); no cycle writes a right-hand side; a cycle reads no buffer except its iterate and right-hand side (and the '
+        'level-1 right-hand side with extrapolation) before writing it. Every solve() of a configuration matrix is traced call by call with buffer '
+        'identities and compared as an exact string with the model.',
+   note='Trusted: Coq kernel (axiom-free), hand model CycleDefs.v tied by K-trace (hooks H1/H2), extraction. The value-level theorems assume the per-level operators are linear with the smoother fixed-point property proved in C06/C07.',
+   design='5/C10'),
+ 'C01': dict(
+   technique='Coq proof on the solver-loop model (a stop before the limit is the stop test applied to the returned iterate; footprint of the stop test; no cycle writes a right-hand side) + op-trace correspondence + independent recomputation of the tested residual',
+   text='PARTIAL. Decided: whenever solve() stops early, the tested vector was just computed from the returned solution and the problem data, which no cycle '
+        'modifies. Not a theorem: that the iteration contracts for every configuration (analytic convergence theory) -- the check searches the '
+        'configuration set of C01 for a run that uses its whole budget and reports it as a violation if found.',
+   note='Trusted: Coq kernel (axiom-free), K-trace, hooks. Independent residual recomputation uses fresh operators and caches on the implementation.',
+   design='5/C01'),
+ 'C13': dict(
+   technique='Coq proof (a whole solve reads only the right-hand sides before writing: induction over levels, FMG levels and iterations) + K-history: random (set options, setup, solve, solve) histories, last solve compared with the model started from the fresh entry state (exact trace) and with a fresh object (bitwise observations)',
+   text='For every configuration: no vector left by an earlier solve can influence a later one. The object-level scalars are compared through histories; '
+        'the defect found (F6) is repaired by a fix: commit.',
+   note='Trusted: Coq kernel (axiom-free), K-trace/K-history, hooks.',
+   design='5/C13'),
+ 'C20': dict(
+   technique='Coq proof over translator-generated option tables (T8) and statistics facts, index-safety theorem for the operator rows + valgrind probes + option-matrix runs (ASan/UBSan sweep in the thorough tier)',
+   text='PARTIAL. Proved: accepted option integers are exactly the enumerators, the command line lets through only those, take-without-caches and <2 levels '
+        'are rejected, negative tolerances disable, every statistic is defined for every solve (locals initialised, getters guarded: regenerated '
+        'facts), every column of an operator row is a grid node for all grid sizes. Searched, not proved: memory safety at large.',
+   note='Trusted: Coq kernel, translator T8, valgrind/sanitizers only as failure search. F7 repaired by a fix: commit.',
+   design='5/C20'),
 }
 NA_REASON = 'check not built yet in this revision of /verif (design in DESIGN.md section 5); not claimed'
 
